@@ -311,7 +311,7 @@ def execute_isolated(mod, scenario, keep_trace=False, timeout=60):
 
 
 def run_one(mod, scenario, keep_trace=False):
-    if getattr(mod, "ISOLATE", False):
+    if getattr(mod, "ISOLATE", True):   # default: every run in a forked child of a pristine process
         return execute_isolated(mod, scenario, keep_trace)
     return execute(mod, scenario, keep_trace)
 
